@@ -354,6 +354,7 @@ let run_line (lineno : int) (tok : string array) =
      let n = List.length r + 1 in
      add (Printf.sprintf "%d %d %s" n n (hex_of (r @ [zb 0])))
    | "strict" -> st 0
+   | "epilogue" -> st 0
    | "tsdec" -> (match Hashtbl.find_opt tss (h 1) with Some t -> dec_ts t | None -> add "null")
    | "csdec" -> dec_cs (Hashtbl.find_opt css (h 1))
    | "session" ->
